@@ -78,7 +78,7 @@ type Ev struct {
 	// node + claim
 	Pool string  `json:"pool,omitempty"`
 	Cap  []int64 `json:"cap,omitempty"` // [cpu milli, memory, pods, ext]
-	Del  bool    `json:"del,omitempty"` // metadata.deletionTimestamp set
+	Del  bool    `json:"del,omitempty"` // metadata.deletionTimestamp set (node, claim; pod: gracefully terminating, still bound and in its phase)
 	// node
 	Reg  bool    `json:"reg,omitempty"`  // karpenter.sh/registered=true
 	Init bool    `json:"init,omitempty"` // karpenter.sh/initialized=true
@@ -366,7 +366,8 @@ func (w *world) applyAPI(i int, e *Ev) error {
 			p.Spec.Volumes = append(p.Spec.Volumes, corev1.Volume{Name: fmt.Sprintf("v%d", j),
 				VolumeSource: corev1.VolumeSource{PersistentVolumeClaim: &corev1.PersistentVolumeClaimVolumeSource{ClaimName: v}}})
 		}
-		return w.put(p, &corev1.Pod{ObjectMeta: metav1.ObjectMeta{Name: e.Name, Namespace: ns}}, false)
+		// e.Del: a terminating pod (deletionTimestamp set, kept by a finalizer / its grace period): it still holds its node's resources
+		return w.put(p, &corev1.Pod{ObjectMeta: metav1.ObjectMeta{Name: e.Name, Namespace: ns}}, e.Del)
 	case "podGone":
 		return w.remove(&corev1.Pod{ObjectMeta: metav1.ObjectMeta{Name: e.Name, Namespace: ns}})
 	}
